@@ -91,4 +91,26 @@ theorem src_rescale_eq_model (src dst x : Int) :
     rdbp_spec .py x (-(src - dst)) (by py_side) trivial (Or.inl rfl)]
   py_finish
 
+/-- `multiply_by_quantized_multiplier(x, scale, shift)`, all Python ints with `shift ≤ 62` (right shift
+    ≤ 31: the domain of the TFLite reference, see `C19.mbqm_eq`).  Beyond that the source and the hand
+    model differ, see `src_multiply_by_quantized_multiplier_differs_witness`. -/
+theorem src_multiply_by_quantized_multiplier_eq_model (x scale shift : Int) (h : shift ≤ 62) :
+    Agrees errRel (multiply_by_quantized_multiplier (.py x) (.py scale) (.py shift))
+      (multiplyByQuantizedMultiplier x scale shift) := by
+  unfold multiplyByQuantizedMultiplier
+  py_exec [multiply_by_quantized_multiplier, srm32_rw, msrm32_spec, rdbp_rw, mrdbp_spec, errRel]
+  py_finish
+
+/-- Beyond the reference's domain the hand model and the source differ: for `shift = 95` the right
+    shift is 64, the mask `(1 << 64) - 1` does not fit the `np.int64` product and NumPy raises
+    `OverflowError`, whereas the model (unbounded integers) returns 0.  Not reachable from Vela
+    (`quantise_scale` yields shifts < 64); recorded so that the `shift ≤ 62` hypothesis above is not
+    mistaken for a proof artefact. -/
+theorem src_multiply_by_quantized_multiplier_differs_witness :
+    multiply_by_quantized_multiplier (.py 5) (.py 1073741824) (.py 95) = .error .overflow ∧
+    multiplyByQuantizedMultiplier 5 1073741824 95 = .ok 0 := by
+  constructor
+  · py_exec [multiply_by_quantized_multiplier, saturating_rounding_mul32, rounding_divide_by_pot]
+  · decide
+
 end VelaVerif.Props.C19Src
